@@ -34,9 +34,23 @@ def run(prop, tier, seed, shard, nshards, budget_s=None):
     out = {"evaluations": 0, "keys": [], "samples": [], "failures": [], "errors": [], "notes": [],
            "truncated": False, "hashseed": os.environ.get("PYTHONHASHSEED", "random")}
     keys = set()
-    for i, case in enumerate(mod.cases(tier, seed)):
-        if i % nshards != shard:
-            continue
+
+    def all_cases():
+        # the specific inputs of recorded findings are always explored (both tiers), so that a finding is observed and
+        # reported on every run; then the generated cases of this shard
+        if shard == 0:
+            try:
+                kf = json.load(open(os.path.join(os.path.dirname(os.path.dirname(os.path.abspath(__file__))), "known_findings.json")))
+                for f in kf.get("findings", []):
+                    if f.get("property") == prop.upper() and f.get("case") is not None:
+                        yield f["case"]
+            except OSError:
+                pass
+        for i, case in enumerate(mod.cases(tier, seed)):
+            if i % nshards == shard:
+                yield case
+
+    for case in all_cases():
         if budget_s and time.time() - t0 > budget_s:
             out["truncated"] = True
             break
